@@ -120,7 +120,7 @@ def trees(maxN, out=True):
     return res
 
 
-OPT_DEFAULT = {"REN": 0, "P1": 0, "P2": 0, "P3": 1, "P4": 4, "P5": 2, "BK": -1, "SZ": 2, "VIRT": 0, "INTSZ": 0, "NSFIX": -1, "LSFIX": -1, "MINNS": 0, "MAXSZ": 64}
+OPT_DEFAULT = {"REN": 0, "IDSET": 0, "P1": 0, "P2": 0, "P3": 1, "P4": 4, "P5": 2, "BK": -1, "SZ": 2, "VIRT": 0, "INTSZ": 0, "NSFIX": -1, "LSFIX": -1, "MINNS": 0, "MAXSZ": 64}
 SYMB = "symbolic (solver): per-node W,H in [0,64], NodeSpacing, LayerSpacing in [0,64]"
 
 
@@ -287,6 +287,10 @@ def C03(tier):
                             "symbolic per-node sizes, NodeSpacing>=0, LayerSpacing>=1" % (N, M)),
            layout_ob("layout-bands-lp", "Harness_E_C03", sh, {"P4": [4, 1], "P1": [0, 1]},
                      consts={"P2": 1, "P5": 1, "SZ": 2, "KNOWN_FLAT": 0}, bounds="same shapes x longest-path layering x {SinkColoring,VAlign}")]
+    obs.append(layout_ob("layout-bands-colliding-names", "Harness_E_C03", shapes(4, 4, selfloops=False, connected=True), {"IDSET": [1, 2]},
+                         consts={"P1": 0, "P2": 0, "P4": 4, "P5": 1, "SZ": 2, "KNOWN_FLAT": 0},
+                         bounds="all connected loop-free canonical edge lists N<=4 M<=4 with node names whose concatenations collide (1, 12, 2, 11 / \"\", x, xx, xxx): the "
+                                "hierarchy must not depend on how the nodes are called; default pipeline; symbolic sizes"))
     obs.append(ns_pivot_ob(tier))
     obs.append(ns_balance_ob(tier))
     obs += ns_whole_obs(tier, ("feasible",))
